@@ -81,3 +81,27 @@ def token_loops_end_at_eof(model, rep, rule):
             rep.check(okk, rule, f.qualname, where(f, lp), f"token loop ends on {sorted(kinds)}" + (" or raises" if raises else ""),
                       f"the token loop ends only on {sorted(kinds)}: at end of input get() keeps returning EOF tokens, so a last line without a newline makes the reader spin for ever", stmt="token-loop-eof")
     rep.floor(rule + "-token-loops", n_tok, 1)
+
+
+def mixed_presence_tests(model, rep, rule, module_names, what, consequence, floor):
+    """Contradiction rule (Engler): inside one function a local/parameter that is tested for presence by identity (`x is None` / `x is not None`) at one
+    place and through its truth value at another.  One of the two is wrong whenever the value's type has a falsy non-None member (the empty Name, an
+    empty Rdataset, 0): the identity test shows None is the 'absent' marker, so the truth-value test takes the falsy member for 'absent' as well."""
+    from engine.cfg import normalise_compare, atoms
+    n_ident = 0
+    for f in sorted(model.all_functions(), key=lambda g: g.qualname):
+        if f.module.name not in module_names:
+            continue
+        ident = set()
+        for n in ast.walk(f.node):
+            if isinstance(n, ast.Compare) and len(n.ops) == 1 and isinstance(n.ops[0], (ast.Is, ast.IsNot)) \
+                    and isinstance(n.comparators[0], ast.Constant) and n.comparators[0].value is None and isinstance(n.left, ast.Name):
+                ident.add(n.left.id)
+        if not ident:
+            continue
+        n_ident += len(ident)
+        for (n_, nm, how) in truthiness_uses(f.node, ident):
+            rep.bad(rule, f.qualname, where(f, n_), f"`{nm}` is {what}: it is compared with None elsewhere in this function but here it is {how}, "
+                    f"so a present-but-falsy value is taken for 'absent' ({consequence})", stmt=f"mixed-presence {nm}")
+    rep.floor(rule + "-identity-tested", n_ident, floor)
+    rep.ok(rule, "+".join(sorted(module_names)), "-", f"{n_ident} variables tested by identity with None are never also tested through their truth value", stmt="mixed-presence-tests")
